@@ -387,9 +387,6 @@ impl Directory {
     /// `n + 1` when `n` is the number of files.
     #[must_use]
     pub fn read(&self) -> ReadDir<'_> {
-        // Every iterator starts at the first entry, the descriptor's position may be left
-        // anywhere by an earlier one
-        let _ = rusl::unistd::lseek(self.0 .0, 0, rusl::unistd::Whence::SET);
         let buf = [0u8; 512];
         ReadDir {
             fd: BorrowedFd::new(self.0 .0),
@@ -397,6 +394,7 @@ impl Directory {
             offset: 0,
             read_size: 0,
             eod: false,
+            next_pos: 0,
         }
     }
 
@@ -434,6 +432,9 @@ pub struct ReadDir<'a> {
     offset: usize,
     read_size: usize,
     eod: bool,
+    // Where in the directory this iterator's next fill starts, iterators over the same
+    // directory share its descriptor, each one keeps its own place
+    next_pos: rusl::platform::OffT,
 }
 
 impl<'a> Iterator for ReadDir<'a> {
@@ -443,6 +444,12 @@ impl<'a> Iterator for ReadDir<'a> {
         if self.read_size == self.offset {
             if self.eod {
                 return None;
+            }
+            if let Err(e) =
+                rusl::unistd::lseek(self.fd.fd, self.next_pos, rusl::unistd::Whence::SET)
+            {
+                self.eod = true;
+                return Some(Err(e.into()));
             }
             match rusl::unistd::get_dents(self.fd.fd, &mut self.filled_buf) {
                 Ok(read) => {
@@ -463,6 +470,8 @@ impl<'a> Iterator for ReadDir<'a> {
         unsafe {
             if let Some(de) = Dirent::try_from_bytes(&self.filled_buf[self.offset..]) {
                 self.offset += de.d_reclen as usize;
+                // The entry carries the position of the one after it
+                self.next_pos = de.d_off;
                 Some(Ok(DirEntry {
                     inner: de,
                     fd: self.fd,
